@@ -242,7 +242,28 @@ impl Conn {
             }
         }
     }
-    /// next read by the reader of bytes written by `from_side` fails once with `kind`
+    /// after an injected error has been reported once, the connection stays broken: further
+    /// reads and writes fail with ConnectionReset, undelivered bytes are discarded
+    fn break_after_error(&self) {
+        for d in 0..2 {
+            let (a, b) = {
+                let mut dir = self.dir(d);
+                dir.reset = true;
+                dir.inflight.clear();
+                dir.visible.clear();
+                dir.wake_tap_waiters();
+                (dir.rd_waker.take(), dir.wr_waker.take())
+            };
+            if let Some(w) = a {
+                defer_wake(w);
+            }
+            if let Some(w) = b {
+                defer_wake(w);
+            }
+        }
+    }
+    /// next read by the reader of bytes written by `from_side` fails with `kind`; from then on
+    /// the connection is broken in both directions
     pub fn inject_read_error(&self, from_side: usize, kind: io::ErrorKind) {
         count("fault_read_error");
         let w = {
@@ -289,6 +310,12 @@ impl Conn {
             }
             None => false,
         }
+    }
+    /// (read error pending, write error pending) among the one-shot errors injected on the
+    /// direction written by `from_side`
+    pub fn pending_faults(&self, from_side: usize) -> (bool, bool) {
+        let d = self.dir(from_side);
+        (d.rd_err.is_some(), d.wr_err.is_some())
     }
     fn close_side(&self, side: usize) {
         let seq = next_seq();
@@ -470,6 +497,9 @@ fn do_read(conn: &Conn, side: usize, cx: &mut Context<'_>, out: &mut [u8]) -> Po
     dir.read_calls += 1;
     if let Some(k) = dir.rd_err.take() {
         dir.err_delivered = Some(next_seq());
+        drop(dir);
+        // a real connection that reported an error stays broken, in both directions
+        conn.break_after_error();
         return Poll::Ready(Err(k.into()));
     }
     if dir.reset {
@@ -518,6 +548,8 @@ fn do_write(conn: &Conn, side: usize, cx: &mut Context<'_>, data: &[u8]) -> Poll
     let mut dir = conn.dir(side);
     dir.write_calls += 1;
     if let Some(k) = dir.wr_err.take() {
+        drop(dir);
+        conn.break_after_error();
         return Poll::Ready(Err(k.into()));
     }
     if dir.reset {
